@@ -301,7 +301,9 @@ pub fn start_watchdog() {
                             *e = (t0, cpu_now.unwrap_or(0.0));
                         }
                         let cpu_used = cpu_now.map(|c| c - e.1).unwrap_or(0.0);
-                        if cpu_used > cpu_limit || t0.elapsed() > wall_limit {
+                        // wall time only counts when the CPU time cannot be read: a process that
+                        // was suspended (SIGSTOP, a frozen VM) or starved has not hung
+                        if cpu_used > cpu_limit || (cpu_now.is_none() && t0.elapsed() > wall_limit) {
                             let note = s.note.lock().unwrap().clone();
                             let d = format!(
                                 "{} then, in progress: {} (cpu {:.0}s, wall {:.0}s in one job)",
